@@ -35,6 +35,7 @@ pub fn item_to_value(i: &Item) -> Option<Value> {
         Item::Bool(b) => Value::Bool(*b),
         Item::Null => Value::Null,
         Item::Float(f) => Value::Float(*f),
+        Item::Wrapped(w) => Value::Bytes(w.content()),
         Item::Undefined | Item::Simple(_) => return None,
     })
 }
@@ -45,6 +46,7 @@ pub fn item_to_value(i: &Item) -> Option<Value> {
 pub fn as_read_by_ciborium(i: &Item) -> Item {
     match i {
         Item::Undefined => Item::Null,
+        Item::Wrapped(w) => Item::Bytes(w.content()),
         Item::Array(a) => Item::Array(a.iter().map(as_read_by_ciborium).collect()),
         Item::Map(m) => Item::Map(m.iter().map(|(k, v)| (as_read_by_ciborium(k), as_read_by_ciborium(v))).collect()),
         Item::Tag(t, x) => Item::Tag(*t, Box::new(as_read_by_ciborium(x))),
